@@ -48,6 +48,8 @@ func run(c *hk.Ctx) {
 	runMixed(c)
 	runBurstSizes(c)
 	runChatty(c)
+	runErrorsReal(c)
+	runErrorCensus(c)
 	runEcho(c)
 }
 
